@@ -61,6 +61,22 @@ def gen_C18(rng, tier):
         t = p.bind('randu %s %s %s %s' % (rng.choice(['T', 'U', 'nil']), ints(shape), f2b(lo), f2b(hi))); p.add('obs %s' % t)
         t = p.bind('randn %s %s %s %s' % (rng.choice(['T', 'U', 'nil']), ints(shape), f2b(rng.choice([-1.0, 0.0, 3.0])), f2b(rng.choice([0.1, 1.0, 2.0])))); p.add('obs %s' % t)
         progs.append(p)
+    # parameters that are no distribution parameters at all (NaN, infinite, reversed, zero / negative widths): rejected by the
+    # constructors and by RandU / RandN, whatever the comparison is written like
+    BADF = [float('nan'), float('inf'), float('-inf'), 0.0, -1.0, 1.0]
+    for i in range(30 if tier == 'quick' else 400):
+        p = Prog('c18_params%d' % i)
+        p.add('seedrng %d' % rng.randrange(1, 10 ** 6))
+        a, b = rng.choice(BADF), rng.choice(BADF)
+        ini = p.bind('init uniform %s %s' % (f2b(a), f2b(b)), 'i')
+        t = p.bind('initcall %s %s' % (ini, ints([2, 2]))); p.add('obs %s' % t)
+        a2, b2 = rng.choice(BADF + [2.0]), rng.choice(BADF)
+        ini2 = p.bind('init normal %s %s' % (f2b(a2), f2b(b2)), 'i')
+        t = p.bind('initcall %s %s' % (ini2, ints([3]))); p.add('obs %s' % t)
+        t = p.bind('randu %s %s %s %s' % (rng.choice(['T', 'U', 'nil']), ints([2]), f2b(rng.choice(BADF)), f2b(rng.choice(BADF)))); p.add('obs %s' % t)
+        t = p.bind('randn %s %s %s %s' % (rng.choice(['T', 'U', 'nil']), ints([2]), f2b(rng.choice(BADF)), f2b(rng.choice(BADF)))); p.add('obs %s' % t)
+        p.tag('parameter-corners')
+        progs.append(p)
     # large draws for the moment tests (extra check below); two calls per initializer
     for k, kind in enumerate(KINDS):
         for rep in range(2 if tier == 'quick' else 6):
@@ -156,6 +172,15 @@ def thread_body(p, rng, shared, tid, kind):
             z2 = bind('patch %s 0:1 %s' % (U, blk))
         else: z2 = bind('%s %s %s' % (kind, o2, U))
         p.add('bp %s' % z2); p.add('obs %s' % o2)
+    # the SAME private tracked tensor more than once among the operands of one call (every back edge of the result then
+    # points at one tensor: its gradient is accumulated several times within a single BackPropagate)
+    o3 = bind('tensorof T %d %s' % (len(shape), nested(shape, [rng.uniform(0.5, 1.5) for _ in range(prod(shape))])))
+    h3 = bind('scale %s %s' % (o3, f2b(0.5)))
+    rep = rng.choice(['concat', 'concat', 'elmax', 'elmin', 'patch', 'mul'])
+    if rep == 'concat': z3 = bind('concat %s %d' % (','.join([h3] * rng.randint(2, 5)), rng.randrange(len(shape))))
+    elif rep == 'patch': z3 = bind('patch %s %s %s' % (h3, ranges([(0, d) for d in shape]), h3))
+    else: z3 = bind('%s %s %s' % (rep, h3, h3))
+    p.add('bp %s' % z3); p.add('obs %s' % o3); p.add('obs %s' % h3)
     # random constructors concurrently (values are not compared in this mode, shapes are)
     r = bind('randu U 3,2 %s %s' % (f2b(0.0), f2b(1.0))); p.add('nelems %s' % r)
     r = bind('randn T 4 %s %s' % (f2b(0.0), f2b(1.0))); d = nm('d'); p.add('%s = shape %s' % (d, r))
